@@ -175,7 +175,7 @@ def o13_8_table_bytes(mir, tier):
     tget = [f for f in mir.fns.values() if f.path.endswith('::get') and 'table::' in f.path and f.self_ty == 'Table'][0]
     tl = 'TwoLevelIterator'
     it_new = mir.method(tl, 'new'); it_first = mir.method(tl, 'seek_to_first', 'RainDbIterator'); it_last = mir.method(tl, 'seek_to_last', 'RainDbIterator')
-    it_next = mir.method(tl, 'next', 'RainDbIterator'); it_prev = mir.method(tl, 'prev', 'RainDbIterator'); it_cur = mir.method(tl, 'current', 'RainDbIterator')
+    it_seek = mir.method(tl, 'seek', 'RainDbIterator'); it_next = mir.method(tl, 'next', 'RainDbIterator'); it_prev = mir.method(tl, 'prev', 'RainDbIterator'); it_cur = mir.method(tl, 'current', 'RainDbIterator')
     res.functions = [add.path, fin.path, topen.path, tget.path, 'TableBuilder::flush_data_block / write_block / emit_block_to_disk, Table::read_block_from_disk / read_filter_meta_block / get_block_reader, TwoLevelIterator, BlockBuilder, BlockReader, BlockIter, FilterBlockBuilder, FilterBlockReader, BlockHandle, Footer, InternalKey codec, separators (all inlined)']
     shapes = [(1, 1000), (2, 1000), (2, 1)] if tier == 'quick' else [(1, 1000), (2, 1000), (3, 1000), (2, 1), (3, 1), (3, 40)]
     tbf = mir.struct_fields('TableBuilder')
@@ -257,6 +257,31 @@ def o13_8_table_bytes(mir, tier):
                             ex.run_fn(it_cur, [Ref('$it')], env_p, pc_p, cur)
                         ex.run_fn(start_fn, [Ref('$it')], e2, pc_i, lambda _r1, e4, p4: at(0, e4, p4))
                     ex.run_fn(it_new, [Ref('$table'), ro], dict(e), pc_o, made)
+                # ---- seek to an arbitrary target (stored keys, gaps between blocks, beyond both ends): the first entry not less than it
+                tgt_u, tgt_s = [BitVec('seek_key', 8)], BitVec('seek_seq', 64)
+                tk = mir.mk_struct('InternalKey', user_key=list(tgt_u), sequence_number=tgt_s, operation=bv(1))
+                def made_for_seek(it, env_i, pc_i):
+                    e2 = dict(env_i); e2['$it'] = it
+                    def sought(_r, env_s, pc_s):
+                        def cur(rc, env_c, pc_c):
+                            T = (tgt_u, tgt_s, bv(1))
+                            ge = [Not(ikey_lt(K[j], T)) for j in range(n)]             # entry j >= target
+                            conds = []
+                            for j in range(n):
+                                first = And(ge[j], *[Not(ge[h]) for h in range(j)])
+                                if isinstance(rc, Enum) and rc.tag == 'Some':
+                                    kk, vv = rc.fields[0]
+                                    kk = ex.deref(env_c, kk) if isinstance(kk, Ref) else kk
+                                    okj = same_key(mir, ex, kk, K[j])
+                                else: okj = BoolVal(False)
+                                conds.append(Or(Not(first), okj))
+                            conds.append(Or(Or(*ge), BoolVal(isinstance(rc, Enum) and rc.tag == 'None')))
+                            res.cases[case + ': seek'] = res.cases.get(case + ': seek', 0) + 1
+                            for label, _p, m in ex.check_posts([('after seek the table iterator is not on the first entry that is not less than the target (targets between two data blocks included)', And(*conds))], pc_c):
+                                res.violations.append({'label': label, 'case': case, 'model': {str(d): str(m[d]) for d in m.decls()}, 'replay': ['table_edge_keys']})
+                        ex.run_fn(it_cur, [Ref('$it')], env_s, pc_s, cur)
+                    ex.run_fn(it_seek, [Ref('$it'), tk], e2, pc_i, sought)
+                ex.run_fn(it_new, [Ref('$table'), ro], dict(e), pc_o, made_for_seek)
                 scan(it_first, it_next, list(range(n)), 'forward')
                 scan(it_last, it_prev, list(reversed(range(n))), 'backward')
             ex.run_fn(topen, [{'abstract': True, '__ty': 'DbOptions'}, {'file': 1}], dict(env), pc, opened)
